@@ -7,12 +7,14 @@
 (*                                                                         *)
 (* mode "chunk" (C02): Tok = decode of each token alone, Run = decode of   *)
 (*   the whole string under one partition (cuts = <<>> is the single read).*)
+(*   The single-read decode of every 7-bit string is also predicted by the *)
+(*   tokenizer model (Tokenizer.tla) from the terminal's key table.        *)
 (* mode "keys"  (C03): Entry = one key-table entry (sorted), Decode /      *)
 (*   AltDecode / EscDecode / PairDecode = decodes of capability sequences. *)
 (* mode "mouse" (C12): Mouse = one report, MouseSeq starts a new decoder.  *)
 (* mode "text"  (C11): Text = an encoded string of printable characters.   *)
 (***************************************************************************)
-EXTENDS Input, TLC, Json
+EXTENDS Input, Tokenizer, TLC, Json
 
 Trace == ndJsonDeserialize("trace.ndjson")
 
@@ -33,6 +35,21 @@ Robust(e, tag) ==
 ---------------------------------------------------------------------------
 (* C02 *)
 
+\* the language of the recorded terminal, for the tokenizer model
+LangOf(c) == [keys |-> {[seq |-> c.keys[i][1], key |-> c.keys[i][2], mod |-> c.keys[i][3]] : i \in 1..Len(c.keys)},
+              mouse |-> c.mouse, clip |-> c.clip, ps |-> c.ps, pe |-> c.pe, guard |-> TRUE, strict |-> TRUE]
+\* mouse and clipboard events are compared by kind only (their content is C12's and the clipboard's matter);
+\* an OSC 52 reply with undecodable base64 is consumed without an event
+NormEvs(evs) == LET k == SelectSeq(evs, LAMBDA x : x[1] # "clip")
+                IN [i \in 1..Len(k) |-> IF k[i][1] = "mouse" THEN <<"mouse">> ELSE k[i]]
+Predicted(e) ==
+    IF "keys" \notin DOMAIN cfg \/ \E i \in 1..Len(e.bytes) : e.bytes[i] > 127 THEN {}
+    ELSE LET d == Decode(LangOf(cfg), e.bytes) IN
+         IF d.amb \/ d.hi THEN {}
+         ELSE (IF NormEvs(Events(d)) = NormEvs(e.evs) THEN {}
+               ELSE {Dev("C02.model", "whole", <<e.bytes, NormEvs(Events(d))>>)})
+              \cup (IF Attributed(LangOf(cfg), d, e.bytes) THEN {} ELSE {Dev("EXTRA.model_attribution", "whole", e.bytes)})
+
 ChunkStep(e) ==
     IF e.ev = "Tok" THEN
         <<[st EXCEPT !.tokacc = IF st.sid = e.s THEN @ \o e.evs ELSE e.evs, !.sid = e.s,
@@ -45,7 +62,8 @@ ChunkStep(e) ==
               Robust(e, "C02")
               \cup (IF e.left = 0 THEN {} ELSE {Dev("C02.drain", "whole", e.bytes)})
               \cup (IF e.tokens = 0 \/ st.sid # e.s \/ e.evs = st.tokacc THEN {}
-                    ELSE {Dev("C02.swallow", "concatenation", e.bytes)})>>
+                    ELSE {Dev("C02.swallow", "concatenation", e.bytes)})
+              \cup Predicted(e)>>
         ELSE
             <<st, Robust(e, "C02")
               \cup (IF e.left = 0 THEN {} ELSE {Dev("C02.drain", "split", <<e.bytes, e.cuts>>)})
